@@ -52,6 +52,10 @@ pub extern "Rust" fn curve25519_dalek_verif_pick_backend(compiled: u8) -> u8 {
     ans
 }
 
+/// observation seam of the library (unused by this driver)
+#[no_mangle]
+pub extern "Rust" fn curve25519_dalek_verif_observe_scalars(_tag: &[u8], _zs: &[Scalar]) {}
+
 // ------------------------------------------------------------------ SimAlloc
 
 const ARENA_SIZE: usize = 768 << 20;
@@ -215,8 +219,9 @@ fn window_end() -> Vec<Freed> {
 enum Op {
     /// constant-time multiscalar multiplication with n secret scalars. g 0 Edwards / 1 Ristretto
     Msm { g: u8, n: u32, it: u8 },
-    /// Scalar::batch_invert on n secret non-zero scalars
-    BatchInvert { n: u32 },
+    /// Scalar::batch_invert on n secret scalars; zero_at = Some(i) puts a zero at index i (outside the documented
+    /// domain: only exercised in builds without debug assertions, where the call returns)
+    BatchInvert { n: u32, #[serde(default)] zero_at: Option<u32> },
     /// create a secret-holding object in slot s. ty 0 SigningKey 1 ExpandedSecretKey 2 EphemeralSecret
     /// 3 ReusableSecret 4 StaticSecret 5 SharedSecret; how 0 from bytes / rng, 1 clone of a fresh one
     Create { s: u8, ty: u8, how: u8 },
@@ -263,15 +268,19 @@ struct AReplay {
 fn generate(seed: u64, run: u64, thorough: bool) -> APlan {
     let mut rng = Prng::new(simcore::run_seed(seed, 0x61_6c_6c_6f_63, run));
     let nops = 1 + rng.below(10) as usize;
-    let sizes_q = [0u32, 1, 2, 3, 7, 8, 9, 16, 33, 64];
-    let sizes_t = [0u32, 1, 2, 3, 7, 8, 9, 16, 33, 64, 100, 200];
+    let sizes_q = [0u32, 1, 2, 3, 4, 5, 7, 8, 9, 16, 33, 64, 190];
+    let sizes_t = [0u32, 1, 2, 3, 4, 5, 7, 8, 9, 16, 33, 64, 100, 189, 190, 200, 400];
     let mut ops = Vec::new();
     let mut live: Vec<u8> = Vec::new();
     for _ in 0..nops {
         let sizes: &[u32] = if thorough { &sizes_t } else { &sizes_q };
         match rng.below(12) {
             0..=2 => ops.push(Op::Msm { g: rng.below(2) as u8, n: *rng.pick(sizes), it: rng.below(5) as u8 }),
-            3 | 4 => ops.push(Op::BatchInvert { n: *rng.pick(sizes) }),
+            3 | 4 => {
+                let n = *rng.pick(sizes);
+                let zero_at = if n > 0 && !cfg!(debug_assertions) && rng.chance(1, 5) { Some(rng.below(n as u64) as u32) } else { None };
+                ops.push(Op::BatchInvert { n, zero_at })
+            }
             5 | 6 => {
                 let s = rng.below(6) as u8;
                 ops.push(Op::Create { s, ty: rng.below(6) as u8, how: rng.below(2) as u8 });
@@ -526,9 +535,14 @@ fn run_variant(plan: &APlan, v: u8, c: &mut Counters) -> Trace {
                 }
                 bump(c, "op:Msm");
             }
-            Op::BatchInvert { n } => {
+            Op::BatchInvert { n, zero_at } => {
                 let n = *n as usize;
                 let mut scalars: Vec<Scalar> = (0..n).map(|i| secret_scalar(plan, v, ctr + i as u64)).collect();
+                if let Some(z) = zero_at {
+                    if (*z as usize) < n && !cfg!(debug_assertions) {
+                        scalars[*z as usize] = Scalar::ZERO;
+                    }
+                }
                 ctr += n as u64;
                 window_begin(plan.realloc_in_place);
                 let r = std::panic::catch_unwind(std::panic::AssertUnwindSafe(|| Scalar::batch_invert(&mut scalars)));
@@ -757,7 +771,7 @@ fn shrink(plan: &APlan, v: &AViolation) -> (APlan, AViolation) {
         loop {
             let mut p = cur.clone();
             let smaller = match &mut p.ops[i] {
-                Op::Msm { n, .. } | Op::BatchInvert { n } if *n > 1 => {
+                Op::Msm { n, .. } | Op::BatchInvert { n, .. } if *n > 1 => {
                     *n -= 1;
                     true
                 }
